@@ -232,8 +232,13 @@ func h16_step(compress bool) {
 	}
 	A, B, C := h16_block(0xA1, "A"), h16_block(0xB2, "B"), h16_block(0xC3, "C")
 	pre := []*btc.Block{A, B}
-	flags := []byte{byte(zzverif.Enum("A.flags", 4)), byte(zzverif.Enum("B.flags", 4))} // bit 0 trusted, bit 1 invalid
-	zzverif.Bound("store state", "two stored blocks of 81..82 bytes (fixed distinct headers, arbitrary bodies) with arbitrary trusted/invalid flags, uncompressed (StoreStep) or snappy streams of one literal element (StoreStepCompressed); one new block, written to the same data file or to a new one (roll-over); cache of 1 or 10 blocks")
+	flags := []byte{byte(zzverif.Enum("A.flags", 4)), 0} // bit 0 trusted, bit 1 invalid
+	if zzverif.Tier() == 0 {
+		flags[1] = byte(2 * zzverif.Enum("B.invalid", 2)) // quick: the second block plain or invalid
+	} else {
+		flags[1] = byte(zzverif.Enum("B.flags", 4))
+	}
+	zzverif.Bound("store state", "two stored blocks of 81..82 bytes (fixed distinct headers, arbitrary bodies) with arbitrary trusted/invalid flags (quick: the second block plain or invalid), uncompressed (StoreStep) or snappy streams of one literal element (StoreStepCompressed); one new block, written to the same data file or to a new one (roll-over); cache of 1 or 10 blocks")
 	// ---- the on-disk pre-state in the store's own format
 	var idx, dat []byte
 	for i, bl := range pre {
